@@ -288,16 +288,16 @@ fn exec_w<W: BitArray + Default>(t: &BackendTrace, ctx: &mut Ctx) -> Result<(), 
                     Obj::RevBox(c) => (Some(ReadWords::<W, Stack>::maybe_exhausted(c)), Some(ReadWords::<W, Queue>::maybe_exhausted(c)), Some(WriteWords::<W>::maybe_full(c))),
                 };
                 ctx.stats.hit("op-maybe-flags");
-                // "false" answers are promises: not exhausted => next read succeeds; not full => next write succeeds
+                // a "false" answer of maybe_exhausted is a promise (documented): the next read is not end-of-data
                 if ex_s == Some(false) && m.pos == 0 {
                     viol!(ctx, "maybe-exhausted-stack", "maybe_exhausted (stack) = false but the next read is end-of-data");
                 }
                 if ex_q == Some(false) && m.pos >= m.buf.len() {
                     viol!(ctx, "maybe-exhausted-queue", "maybe_exhausted (queue) = false but the next read is end-of-data");
                 }
-                if full == Some(false) && !m.growable && m.pos >= m.buf.len() {
-                    viol!(ctx, "maybe-full", "maybe_full = false but the next write fails");
-                }
+                // `maybe_full() == false` is NOT a promise: the trait documents that a sink that
+                // is "not full" may still refuse a write.  Nothing is asserted about it.
+                let _ = full;
             }
             BOp::Pos => {
                 let p: usize = match &obj {
